@@ -70,6 +70,10 @@ pub struct SpawnCase {
     /// list: everything one by one). A chunk of length 0 is an `args`/`envs` call with an empty iterator.
     #[serde(default)]
     pub feed: Vec<u8>,
+    /// the streams configured as RawFd all get ONE descriptor (as in `cmd >log 2>&1`, or one socket
+    /// serving as all three streams) instead of one each
+    #[serde(default)]
+    pub shared_raw: bool,
 }
 
 /// Definitive dead-lock of `wait` against a child that reads its standard input to the end: the
@@ -117,6 +121,7 @@ fn unhex(s: &str) -> Vec<u8> {
     (0..s.len() / 2).map(|i| u8::from_str_radix(&s[2 * i..2 * i + 2], 16).unwrap_or(0)).collect()
 }
 
+#[derive(Clone)]
 struct Ident {
     dev: u64,
     ino: u64,
@@ -276,6 +281,12 @@ fn run_case(c: &SpawnCase, root: &std::path::Path, rep: &mut CaseReport) -> Resu
     let mut raw: [Option<(i32, Ident)>; 3] = [None, None, None];
     for i in 0..3 {
         if c.stdio[i] == 4 {
+            if c.shared_raw {
+                if let Some(first) = raw[..i].iter().flatten().next().cloned() {
+                    raw[i] = Some(first);
+                    continue;
+                }
+            }
             let p = std::ffi::CString::new(root.join(format!("raw{i}")).as_os_str().as_bytes()).unwrap();
             let fd = unsafe { libc::open(p.as_ptr(), libc::O_CREAT | libc::O_RDWR | libc::O_CLOEXEC, 0o644) };
             assert!(fd >= 0);
@@ -747,7 +758,13 @@ fn run_case(c: &SpawnCase, root: &std::path::Path, rep: &mut CaseReport) -> Resu
         libc::close(mp[0]);
         libc::close(mp[1]);
     }
+    let mut seen_raw: Vec<i32> = Vec::new();
     for r in raw.iter().flatten() {
+        if seen_raw.contains(&r.0) {
+            rep.class("one-rawfd-shared-by-several-streams");
+            continue;
+        }
+        seen_raw.push(r.0);
         // ownership of RawFd is undocumented: close it if spawn did not
         if unsafe { libc::fcntl(r.0, libc::F_GETFD) } >= 0 {
             rep.class("rawfd-left-open-by-spawn");
@@ -846,7 +863,7 @@ pub fn case_strategy() -> impl Strategy<Value = SpawnCase> {
         .prop_map(|(prog, args, env, cwd, pgroup, ids, stdio, closures, exit_code, fault, (closed, wait_mode))| {
             // the closed-descriptor knob is combined only with fault-free runs of the helper
             let closed = if fault == Fault::None && prog == 0 { closed } else { [false; 3] };
-            SpawnCase { prog, args, env, cwd, pgroup, ids, stdio, closures, exit_code, fault, closed, wait_mode, keep_stdin: exit_code % 2 == 0, feed: vec![] }
+            SpawnCase { prog, args, env, cwd, pgroup, ids, stdio, closures, exit_code, fault, closed, wait_mode, keep_stdin: exit_code % 2 == 0, feed: vec![], shared_raw: exit_code % 3 == 0 }
         })
         .prop_flat_map(|c| (Just(c), prop_oneof![2 => Just(vec![]), 3 => prop::collection::vec(0u8..5, 1..6)]))
         .prop_map(|(mut c, feed)| {
@@ -957,7 +974,7 @@ pub fn run(ctx: &Ctx) {
             for err in [0u8, 1] {
                 for exit_code in [0u8, 6] {
                     if k % ctx.nworkers == ctx.worker {
-                        let c = SpawnCase { prog: 0, args: vec![], env: None, cwd: 0, pgroup: false, ids: false, stdio: [3, out, err], closures: vec![], exit_code, fault: Fault::None, closed: [false; 3], wait_mode: 0, keep_stdin: true, feed: vec![] };
+                        let c = SpawnCase { prog: 0, args: vec![], env: None, cwd: 0, pgroup: false, ids: false, stdio: [3, out, err], closures: vec![], exit_code, fault: Fault::None, closed: [false; 3], wait_mode: 0, keep_stdin: true, feed: vec![], shared_raw: false };
                         if !ctx.run_one("spawn-kept-stdin", &c, || check_spawn(ctx, &c)) {
                             break;
                         }
